@@ -94,9 +94,15 @@ def coq_make(targets=(), timeout=3000):
     """Full .vo build of the requested targets (all when empty). Returns (ok, log)."""
     with open(os.path.join(COQDIR, ".lock"), "w") as lk:
         fcntl.flock(lk, fcntl.LOCK_EX)
-        if not os.path.exists(os.path.join(COQDIR, "Makefile")) or \
-                os.path.getmtime(os.path.join(COQDIR, "Makefile")) < os.path.getmtime(os.path.join(COQDIR, "_CoqProject")):
-            subprocess.run(["coq_makefile", "-f", "_CoqProject", "-o", "Makefile"], cwd=COQDIR, check=True,
+        # the Makefile is generated from _CoqProject restricted to files that exist (a package under
+        # construction may have listed files it has not written yet; that must not break other properties)
+        proj = open(os.path.join(COQDIR, "_CoqProject")).read().splitlines()
+        eff = [l for l in proj if not l.strip().endswith(".v") or os.path.exists(os.path.join(COQDIR, l.strip()))]
+        efftxt = "\n".join(eff) + "\n"
+        effp = os.path.join(COQDIR, ".CoqProject.effective")
+        if not os.path.exists(os.path.join(COQDIR, "Makefile")) or not os.path.exists(effp) or open(effp).read() != efftxt:
+            open(effp, "w").write(efftxt)
+            subprocess.run(["coq_makefile", "-f", ".CoqProject.effective", "-o", "Makefile"], cwd=COQDIR, check=True,
                            stdout=subprocess.DEVNULL)
         cmd = ["timeout", str(timeout), "make", "-j", str(NCPU)] + list(targets)
         r = subprocess.run(cmd, cwd=COQDIR, stdout=subprocess.PIPE, stderr=subprocess.STDOUT, text=True)
@@ -264,7 +270,10 @@ def assumptions(workdir, module, theorems, allow, timeout=600):
             continue
         if cur is None:
             continue
-        m = re.match(r"^([A-Za-z_][\w.']*)\s*:", line)
+        if line.strip() in ("Axioms:", "Closed under the global context", ""):
+            continue
+        # an axiom is printed as `Qualified.name : type`; long names put the `: type` on the next (indented) line
+        m = re.match(r"^([A-Za-z_][\w.']*)\s*(:|$)", line)
         if m and not line.startswith(" "):
             ax = m.group(1)
             res[cur].append(ax)
